@@ -50,6 +50,10 @@ pub struct Req {
     /// (the statement ties the response headers to the configured policy, not to who asks)
     #[serde(default)]
     pub origin: u8,
+    /// letter case of the request's header names (they are case-insensitive): 0 as in the specifications, 1 lower,
+    /// 2 upper, 3 only the first letter capital, 4 alternating
+    #[serde(default)]
+    pub name_case: u8,
 }
 #[derive(Clone, Debug, Serialize, Deserialize)]
 pub struct Scenario {
@@ -173,7 +177,7 @@ pub fn generate(cfg: &RunCfg, out: &mut Outcome) -> Scenario {
         .map(|r| {
             let registered: Vec<String> = table.routes.iter().find(|e| appgen::greedy(std::slice::from_ref(e), &appgen::path_segments(&r.path)).is_some()).map(|e| e.methods.keys().cloned().collect()).unwrap_or_default();
             match t::weighted(&[4, 5, 1]) {
-                0 => Req { method: if r.method == "OPTIONS" { "GET".into() } else { r.method }, path: r.path, acrm: None, acrh: None, kind: format!("simple/{}", r.kind), origin: 0 },
+                0 => Req { method: if r.method == "OPTIONS" { "GET".into() } else { r.method }, path: r.path, acrm: None, acrh: None, kind: format!("simple/{}", r.kind), origin: 0, name_case: 0 },
                 1 => {
                     let acrm = match t::weighted(&[5, 3, 1, 1]) {
                         0 if !registered.is_empty() => t::pick(&registered),
@@ -182,13 +186,14 @@ pub fn generate(cfg: &RunCfg, out: &mut Outcome) -> Scenario {
                         _ => t::pick(&["get", "TRACE", "FOO", ""]).to_string(),
                     };
                     let acrh = if t::chance(1, 2) { Some(t::pick(&["X-Custom", "content-type, x-a", "Authorization", "X_Trace_Id", "content-type,x_api_key", "X-Api.Version", "Content-Type, X-Client~Build", "a!#$%&'*+.^_`|~0"]).to_string()) } else { None };
-                    Req { method: "OPTIONS".into(), path: r.path, acrm: Some(acrm), acrh, kind: format!("preflight/{}", r.kind), origin: 0 }
+                    Req { method: "OPTIONS".into(), path: r.path, acrm: Some(acrm), acrh, kind: format!("preflight/{}", r.kind), origin: 0, name_case: 0 }
                 }
-                _ => Req { method: "OPTIONS".into(), path: r.path, acrm: None, acrh: None, kind: format!("options/{}", r.kind), origin: 0 },
+                _ => Req { method: "OPTIONS".into(), path: r.path, acrm: None, acrh: None, kind: format!("options/{}", r.kind), origin: 0, name_case: 0 },
             }
         })
         .map(|mut r: Req| {
             r.origin = t::weighted(&[2, 2, 2, 2, 1]) as u8;
+            r.name_case = t::weighted(&[6, 2, 1, 1, 1]) as u8;
             r
         })
         .collect();
@@ -328,19 +333,29 @@ fn execute(sc: &Scenario, out: &mut Outcome) {
                 }
             }
             let cl = c.as_mut().unwrap();
+            let nc = r.name_case;
+            let cased = move |name: &str| -> String {
+                match nc {
+                    1 => name.to_ascii_lowercase(),
+                    2 => name.to_ascii_uppercase(),
+                    3 => name.chars().enumerate().map(|(i, c)| if i == 0 { c.to_ascii_uppercase() } else { c.to_ascii_lowercase() }).collect(),
+                    4 => name.chars().enumerate().map(|(i, c)| if i % 2 == 0 { c.to_ascii_lowercase() } else { c.to_ascii_uppercase() }).collect(),
+                    _ => name.to_string(),
+                }
+            };
             let origin_line = match r.origin {
                 1 => String::new(),
-                2 if policy_origin != "*" => format!("Origin: {policy_origin}\r\n"),
-                3 => "Origin: https://other.example\r\n".to_string(),
-                4 => "Origin: null\r\n".to_string(),
-                _ => "Origin: https://example.com\r\n".to_string(),
+                2 if policy_origin != "*" => format!("{}: {policy_origin}\r\n", cased("Origin")),
+                3 => format!("{}: https://other.example\r\n", cased("Origin")),
+                4 => format!("{}: null\r\n", cased("Origin")),
+                _ => format!("{}: https://example.com\r\n", cased("Origin")),
             };
             let mut s = format!("{} {} HTTP/1.1\r\nHost: s\r\n{origin_line}", r.method, r.path);
             if let Some(m) = &r.acrm {
-                s.push_str(&format!("Access-Control-Request-Method: {m}\r\n"));
+                s.push_str(&format!("{}: {m}\r\n", cased("Access-Control-Request-Method")));
             }
             if let Some(h) = &r.acrh {
-                s.push_str(&format!("Access-Control-Request-Headers: {h}\r\n"));
+                s.push_str(&format!("{}: {h}\r\n", cased("Access-Control-Request-Headers")));
             }
             s.push_str("\r\n");
             cl.send(s.as_bytes(), 0);
@@ -374,6 +389,9 @@ fn execute(sc: &Scenario, out: &mut Outcome) {
     let obs = obs.borrow();
     let (mut pre_ok, mut pre_fail) = (0, 0);
     for (k, r) in sc.reqs.iter().enumerate() {
+        if r.name_case != 0 {
+            out.probe("c14.header_names_in_another_letter_case");
+        }
         let Some(resp) = obs.get(k) else { break };
         let kind0 = r.kind.split('/').next().unwrap_or("").to_string();
         let desc = format!("request {k} ({}: {} {} ACRM {:?} ACRH {:?}; policy {:?})", r.kind, r.method, r.path, r.acrm, r.acrh, sc.policy);
